@@ -1078,12 +1078,28 @@ def fl_round(v, bits):
                 out.append((r, True, r, True))
             continue
         nlo, nlc, nhi, nhc = lo, lc, hi, hc
-        if hi == INF or hi > fmax:
+        # round-to-nearest overflows only from fmax + ulp/2 on; values in (fmax, fmax + ulp/2) round to fmax
+        over = fmax + Fraction(2) ** (emax - p)
+        if hi == INF or hi > over or (hi == over and hc):
             pinf = True
+        if hi == INF or hi > fmax:
             nhi, nhc = fmax, True
-        if lo == NINF or lo < -fmax:
+        if lo == NINF or lo < -over or (lo == -over and lc):
             ninf = True
+        if lo == NINF or lo < -fmax:
             nlo, nlc = -fmax, True
+        if nlo != NINF and nlo > fmax:
+            if nlo > over or (nlo == over):
+                continue            # the whole interval overflows: only +inf (recorded above)
+            nlo, nlc = fmax, True
+        if nhi != INF and nhi < -fmax:
+            if nhi < -over or (nhi == -over):
+                continue
+            nhi, nhc = -fmax, True
+        if hi != INF and hi > fmax and nlo == fmax:
+            nlc = True              # (fmax, fmax + ulp/2) rounds to fmax itself
+        if lo != NINF and lo < -fmax and nhi == -fmax:
+            nhc = True
         if nlo > nhi:
             continue
         # values of tiny magnitude round to a zero of their sign
